@@ -282,7 +282,7 @@ func (h H) candidateGates(rule string) {
 				return a.Op == "true" && a.L == "ok(changeConfig.newConf.Nodes[Raft.storage.nid])"
 			})
 			r2 := fi.MustCross(s.Instr, func(a core.Atom) bool {
-				return a.Op == "true" && strings.HasSuffix(a.L, ".Voter") && strings.HasPrefix(a.L, "local:")
+				return a.Op == "true" && strings.HasSuffix(a.L, ".Voter") && (strings.HasPrefix(a.L, "local:") || strings.HasPrefix(a.L, "changeConfig.newConf.Nodes[Raft.storage.nid]"))
 			})
 			cc := h.fn("raft:(*Raft).changeConfig")
 			adopted := false
@@ -304,14 +304,11 @@ func (h H) candidateGates(rule string) {
 			continue
 		}
 		n++
-		nvar := ""
-		core.Instrs(cse, func(in ssa.Instruction) {
-			if st, ok := in.(*ssa.Store); ok && fi.Sym(st.Val).String() == "follower.Raft.storage.configs.Latest.Nodes[follower.Raft.storage.nid]" {
-				nvar = fi.Sym(st.Addr).String()
+		nvar := h.holderOf(cse, "follower.Raft.storage.configs.Latest.Nodes[follower.Raft.storage.nid]")
+		if nvar == "follower.Raft.storage.configs.Latest.Nodes[follower.Raft.storage.nid]" {
+			if alt := h.holderOf(cse, nvar+"#0"); alt != nvar+"#0" {
+				nvar = alt
 			}
-		})
-		if nvar == "" {
-			nvar = "follower.Raft.storage.configs.Latest.Nodes[follower.Raft.storage.nid]"
 		}
 		h.gate(rule+" canStartElection member", "(*follower).canStartElection return-true", r, core.BoolAtom("ok(follower.Raft.storage.configs.Latest.Nodes[follower.Raft.storage.nid])", true))
 		h.gate(rule+" canStartElection voter", "(*follower).canStartElection return-true", r, core.BoolAtom(nvar+".Voter", true))
